@@ -230,6 +230,21 @@ def run(ctx: Any, prog: Program) -> None:
                   for i in ast.walk(rn_))
     ok = w_space == r_space
     ctx.check('C13.Z2', ok and w_space, vpk, wn, "empty names are stored as a single space on both sides", func='_write_nullstring', text='empty string convention')
+    # ... and every level of the tree writes its name through that helper: a name encoded by hand (`name.encode(..) + b'\\x00'`) stores the
+    # blank name as a bare NUL, which is the end-of-level marker - the reader stops there and misreads the rest of the directory
+    name_loops = [l for l in ast.walk(wd) if isinstance(l, ast.For) and isinstance(l.target, ast.Tuple) and len(l.target.elts) == 2 and isinstance(l.target.elts[0], ast.Name)]
+    ctx.shape('C13.Z2', len(name_loops) == 3, vpk, wd, f'write_dirfile has {len(name_loops)} loops over (name, content) pairs (extension / folder / file expected)', func='VPK.write_dirfile', text='name loops')
+    for l in name_loops:
+        nv = l.target.elts[0].id
+        through = [c for c in ast.walk(l) if isinstance(c, ast.Call) and dotted(c.func) == wn.name and any(isinstance(a, ast.Name) and a.id == nv for a in c.args)]
+        by_hand = [c for c in ast.walk(l) if isinstance(c, ast.Call) and isinstance(c.func, ast.Attribute) and c.func.attr == 'encode' and isinstance(c.func.value, ast.Name) and c.func.value.id == nv]
+        if through and not by_hand:
+            ctx.check('C13.Z2', True, vpk, l, 'name written through the helper', func='VPK.write_dirfile', text=f'`{nv}` written through {wn.name}')
+        elif by_hand:
+            ctx.check('C13.Z2', False, vpk, by_hand[0], f'write_dirfile encodes the name `{nv}` itself (`{U(by_hand[0])[:50]}`) instead of going through {wn.name}(): a blank name (the stem of `.gitignore`) is written as a bare NUL, '
+                      'which the reader takes for the end of the level - the archive cannot be reopened', func='VPK.write_dirfile', text=f'`{nv}` written through {wn.name}')
+        else:
+            ctx.shape('C13.Z2', False, vpk, l, f'how the name `{nv}` is written was not recognised', func='VPK.write_dirfile', text=f'`{nv}` written through {wn.name}')
     # ---- Z3 ------------------------------------------------------------------------------------------------
     def placement(fn: ast.AST) -> Dict[str, Set[str]]:
         """storage kinds used under `arch_index is None` (true) and otherwise (false)"""
@@ -493,6 +508,17 @@ def run(ctx: Any, prog: Program) -> None:
     if not early:
         ctx.check('C13.Z13', True, vpk, fw, 'FileInfo.write has no unchanged-content shortcut', func='FileInfo.write', text='no early return on equal checksum')
 
+    # ---- Z14: bookkeeping of one archive object is not shared with the others -----------------------------------------------------------------
+    # a list/dict/set written as a class-level default and changed in place through `self` is one object for every VPK of the process: opening
+    # a second archive (even read-only) then resets or pollutes what the first one remembers about its own numbered files
+    ctx.rule('C13.Z14', 'per-archive state that is changed in place is created per object, not as a class-level default', floor=1)
+    from engine.model import shared_mutable_class_attrs
+    shared14 = shared_mutable_class_attrs(vpk.tree, ['VPK', 'FileInfo'])
+    for cn14, at14, st14 in shared14:
+        ctx.check('C13.Z14', False, vpk, st14, f'{cn14}.{at14} has the class-level default `{U(st14.value)[:30]}`, is changed in place by the methods and is not assigned in __init__: every {cn14} object shares it, so what one archive '
+                  'records is wiped or altered by constructing or loading another one', func=cn14, text=f'{cn14}.{at14} is per-object state')
+    ctx.check('C13.Z14', True, vpk, vpk.tree, f'{len(shared14)} shared mutable class attributes found in VPK / FileInfo', func='<module>', text='VPK / FileInfo class-level containers examined')
+
     # ---- Z12: a listed name leads back to its entry ---------------------------------------------------------------------------------------
     # FileInfo.filename / iteration / extract_all hand out `_join_file_parts(dir, name, ext)`; every lookup splits a name with `_get_file_parts`.
     # The two are interpreted (engine.minieval, stdlib path functions modelled by posixpath) on a small family of names: the split of a
@@ -602,6 +628,8 @@ def run(ctx: Any, prog: Program) -> None:
         ctx.shape('C13.Z6', False, vpk, w, 'preload slice bound not recognised', func='FileInfo.write', text='preload bounded to 16 bits')
 
 MUTANTS = [
+    {'id': 'vpk_class_level_started_set', 'file': 'vpk.py', 'find': "    _fileinfo: dict[str, dict[str, dict[str, FileInfo]]]\n", 'replace': "    _fileinfo: dict[str, dict[str, dict[str, FileInfo]]]\n    _started_archives: set = set()\n", 'extra': [{'file': 'vpk.py', 'find': "        self._fileinfo.clear()\n        self.footer_data = b''", 'replace': "        self._fileinfo.clear()\n        self._started_archives.clear()\n        self.footer_data = b''"}], 'expect': 'C13.Z14'},
+    {'id': 'dirfile_filename_encoded_by_hand', 'file': 'vpk.py', 'find': "                        _write_nullstring(file, filename)\n", 'replace': "                        file.write(filename.encode('ascii', 'surrogateescape') + b'\\x00')\n", 'expect': 'C13.Z2'},
     {'id': 'write_splits_preload_before_shortcut', 'file': 'vpk.py', 'find': "        new_checksum = checksum(data)\n\n        if new_checksum == self.crc:", 'replace': "        new_checksum = checksum(data)\n        self.start_data = data[:self.vpk.dir_limit or 0xFFFF]\n\n        if new_checksum == self.crc:", 'expect': 'C13.Z13'},
     {'id': 'join_parts_skips_blank_stem', 'file': 'vpk.py', 'find': """    return f"{path}{'/' if path else ''}{filename}{'.' if ext else ''}{ext}"\n""", 'replace': """    name = '.'.join(filter(None, (filename, ext)))\n    return '/'.join(filter(None, (path, name)))\n""", 'expect': 'C13.Z12'},
     {'id': 'ok_join_parts_by_concatenation', 'file': 'vpk.py', 'find': """    return f"{path}{'/' if path else ''}{filename}{'.' if ext else ''}{ext}"\n""", 'replace': """    name = filename + '.' + ext if ext else filename\n    return path + '/' + name if path else name\n""", 'expect': None},
